@@ -29,6 +29,10 @@ pub struct AofEngine {
     
     /// Is background rewrite in progress?
     rewrite_in_progress: Arc<Mutex<bool>>,
+    
+    /// Database the most recently logged command ran in (None = nothing logged yet by
+    /// this process, so the next command is preceded by a SELECT)
+    last_db: Arc<Mutex<Option<usize>>>,
 }
 
 /// AOF configuration
@@ -89,6 +93,7 @@ impl AofEngine {
             config,
             last_fsync: Arc::new(Mutex::new(Instant::now())),
             rewrite_in_progress: Arc::new(Mutex::new(false)),
+            last_db: Arc::new(Mutex::new(None)),
         }
     }
     
@@ -139,6 +144,29 @@ impl AofEngine {
         }
         
         Ok(())
+    }
+    
+    /// Append a command that ran in database `db`: the log is replayed over one
+    /// connection, so a SELECT is logged first whenever the database changes
+    pub fn append_command_in_db(&self, db: usize, command: &[RespFrame]) -> Result<()> {
+        if !self.config.enabled {
+            return Ok(());
+        }
+        
+        let needs_select = {
+            let mut last_db = self.last_db.lock().unwrap();
+            let changed = *last_db != Some(db);
+            *last_db = Some(db);
+            changed
+        };
+        if needs_select {
+            self.append_command(&[
+                RespFrame::from_string("SELECT"),
+                RespFrame::from_string(db.to_string()),
+            ])?;
+        }
+        
+        self.append_command(command)
     }
     
     /// Append a command to the AOF
@@ -258,6 +286,7 @@ impl Clone for AofEngine {
             config: self.config.clone(),
             last_fsync: Arc::clone(&self.last_fsync),
             rewrite_in_progress: Arc::clone(&self.rewrite_in_progress),
+            last_db: Arc::clone(&self.last_db),
         }
     }
 }
